@@ -13,7 +13,8 @@ CHECK = {'rule': "(a) exhaustive: every path of 1..N segments over {in,out,.,..,
                      {'test': '^TestPropSeq$', 'checks': 2500, 'shards': 2, 'timeout': 240, 'seed_offset': 200}],
            'thorough': [{'test': '^TestEnum$', 'shards': 16, 'timeout': 3400},
                         {'test': '^TestPropLong$', 'checks': 40000, 'shards': 8, 'timeout': 3000, 'seed_offset': 100},
-                        {'test': '^TestPropSeq$', 'checks': 20000, 'shards': 8, 'timeout': 3000, 'seed_offset': 200}]}}
+                        {'test': '^TestPropSeq$', 'checks': 20000, 'shards': 8, 'timeout': 3000, 'seed_offset': 200},
+                       {'test': '^$', 'fuzz': '^FuzzCall$', 'fuzztime': '120s', 'gomaxprocs': 4, 'timeout': 400}]}}
 
 TEXT = {'technique': 'exhaustive small-alphabet path enumeration x all op forms x 18 view kinds, plus rapid-generated long paths and call sequences; '
               'containment oracle (parent tree outside the root unchanged, no outside content observable)',
